@@ -165,5 +165,36 @@ theorem C35_limit_inline_id_counterexample :
 
 end Mochi.Broker
 
+/-! ## Non-vacuity: a resumed session fills the limit, the next CONNECT is refused -/
+namespace Mochi.Broker
+open Mochi.Topics
+
+/-- limit 2: `c1` and `c2` connect, `c1` is lost (its session stays), `c1` resumes on connection 3 (two established
+    connections: the limit), `c3` tries on connection 4 -/
+def c35History : List Op :=
+  [.connect 1 { ver := 5, clean := false, id := [99, 49], sei := some 100 },
+   .recv 1 (.subscribe 5 0 [{ filter := [97], qos := 1 }]),
+   .connect 2 { ver := 4, id := [99, 50] },
+   .recv 2 (.publish 1 false false 7 [97] [1] 0 none),
+   .drop 1,
+   .connect 3 { ver := 5, clean := false, id := [99, 49], sei := some 100 },
+   .connect 4 { ver := 5, id := [99, 51] }]
+
+example : SeqOps c35History ∧ OpsFresh (init { maximumClients := 2 }) c35History ∧
+    (∀ op ∈ c35History, opIdOK op = true) := by decide
+
+/-- the CONNECT at the limit is refused with 0x89 and closed; the limit is reached, not passed -/
+example : (step (run (init { maximumClients := 2 }) (c35History.take 6)) (.connect 4 { ver := 5, id := [99, 51] })).2 =
+      [.wrote 4 (.connack 5 false 0x89 1024 2 none), .closed 4] ∧
+    established (run (init { maximumClients := 2 }) (c35History.take 6)) = 2 ∧
+    established (run (init { maximumClients := 2 }) c35History) = 2 ∧
+    (run (init { maximumClients := 2 }) c35History).info.connected = 2 := by decide
+
+/-- `C35_limit_holds_seq` instantiated -/
+example : established (run (init { maximumClients := 2 }) c35History) ≤ 2 :=
+  (C35_limit_holds_seq { maximumClients := 2 } c35History (by decide) (by decide) (by decide)).2.2.2
+
+end Mochi.Broker
+
 #print axioms Mochi.Broker.C35_limit_holds_seq
 #print axioms Mochi.Broker.C35_limit_holds_seq_prefix
